@@ -15,20 +15,11 @@ def aspectCode (b : Nat) : Option (Nat × Nat × Nat) :=
       | none => none)
   | .error _ => none
 
-/-- **the model parser and the real parser agree on the whole swept domain, by proof**: for every aspect_ratio_idc, running
-`Sps.parseSps` (the model) on the frame that the harness fed to `SeqParameterSet::from_bits` gives the row the real parser
-produced (`Generated.aspect`, regenerated on every run) -/
-theorem aspect_model_eq_code : ∀ b : Fin 256, aspectCode b.val = some (Generated.aspect.getD b.val (999, 0, 0)) := by
-  decide +kernel
-
 def videoFormatCode (i : Nat) : Option Nat :=
   let vui := bF ++ bF ++ bT ++ u 3 (i % 8) ++ zeros 8
   match Sps.parseSps (src (spsWithVui (some vui))) with
   | .ok (s, _) => (s.vui.bind (·.videoSignalType)).map (·.videoFormat)
   | .error _ => none
-
-theorem videoFormat_model_eq_code : ∀ i : Fin 8, videoFormatCode i.val = some (Generated.videoFormat.getD i.val 999) := by
-  decide +kernel
 
 def chromaFormatCode (i : Nat) : Nat × Nat :=
   let bits := u 8 100 ++ u 8 0 ++ u 8 30 ++ encUe 0 ++ encUe i ++ (if i = 3 then bF else []) ++ encUe 0 ++ encUe 0 ++ bF ++ bF ++
@@ -38,16 +29,10 @@ def chromaFormatCode (i : Nat) : Nat × Nat :=
       | .monochrome => 0 | .yuv420 => 1 | .yuv422 => 2 | .yuv444 => 3 | .invalid v => v)
   | .error _ => (0, 0)
 
-theorem chromaFormat_model_eq_code : ∀ i : Fin 16, chromaFormatCode i.val = Generated.chromaFormat.getD i.val (9, 9) := by
-  decide +kernel
-
 def seiTypeCode (i : Nat) : Option Nat :=
   match (Sei.next ⟨⟨Sei.encU32 i ++ [1, 0x55, 0x80], .eof⟩, 0, false⟩).2 with
   | .ok (some (ty, pl)) => if pl = [0x55] then some ty else none
   | _ => none
-
-theorem seiType_model_eq_code : ∀ i : Fin 512, seiTypeCode i.val = some (Generated.seiType.getD i.val 999) := by
-  decide +kernel
 
 def sliceTypeCode (i : Nat) : Nat × Nat × Nat :=
   match Sps.parseSps (src (spsWithVui none)) with
@@ -70,9 +55,6 @@ def sliceTypeCode (i : Nat) : Nat × Nat × Nat :=
       | .ok ((h, _, _), _) => (1, Tables2Fam (Slice.familyOf h.sliceTypeId), if h.sliceTypeId ≥ 5 then 1 else 0)
       | .error _ => (0, 0, 0)
 
-theorem sliceType_model_eq_code : ∀ t : Fin 64, sliceTypeCode t.val = Generated.sliceType.getD t.val (9, 9, 9) := by
-  decide +kernel
-
 def picStructCode (i : Nat) : Nat × Nat × Nat :=
   match Sps.parseSps (src (spsWithVui (some (zeros 7 ++ bT ++ bF)))) with
   | .error _ => (7, 7, 7)
@@ -89,8 +71,5 @@ def picStructCode (i : Nat) : Nat × Nat × Nat :=
     match [0, 1, 2, 3, 4].filterMap attempt with
     | r :: _ => r
     | [] => (0, 0, 0)
-
-theorem picStruct_model_eq_code : ∀ p : Fin 16, picStructCode p.val = Generated.picStruct.getD p.val (9, 9, 9) := by
-  decide +kernel
 
 end TblProof
